@@ -345,7 +345,7 @@ def main(tier: str, replay: str | None = None):
     fams = TIERS[tier]
     t0 = time.time()
     nw = 8 if tier == "quick" else 12
-    common = {"FAMILIES": fam_set(fams), "SCALE": tier, "CAP": 0}
+    common = {"FAMILIES": fam_set(fams), "SCALE": tier, "CAP": 0, "OLD": ""}
     with ThreadPoolExecutor(max_workers=2) as pool:
         # domain "all": every program is emitted; the clauses are claimed (INVARIANT) for the programs without a defect pattern
         jgen = pool.submit(tlc.run, "Loader", "Loader_c05.cfg", workers=nw, timeout=6000, heap="8g",
